@@ -1,7 +1,9 @@
 (* C10 — low-level encoders and the streaming decoder are exact inverses.
    Statements only; proofs in theories/PEnc_proofs.v (tables int_like / enc_mt / enc_w / enc_dom /
    rfc_head / tok_of / byte_enc / ctrl_bytes / ctrl_spec are defined there) and PFloat_proofs.v. *)
-From CB Require Import Word PStream PEnc SpecHead SpecItem PStream_proofs PEnc_proofs.
+From CB Require Import Word PStream PEnc SpecHead SpecItem PStream_proofs PEnc_proofs GenLeafTypes Bridge_leaf_enc.
+From CBGen Require Import Gen_leaf.
+From Coq Require Import ZArith.
 Local Open Scope N_scope.
 
 (* integer-like encoders (uint*, negint*, array/map start, tag): the bytes are the RFC 8949 head —
@@ -73,3 +75,59 @@ Example C10_examples :
   encode e_negint8 24 2 = Some (2, [0x38; 24]) /\ encode e_tag (2^32) 9 = Some (9, [0xDB; 0; 0; 0; 1; 0; 0; 0; 0]) /\
   stream_decode [0xDB; 0; 0; 0; 1; 0; 0; 0; 0; 0xFF] = SRes (mkdres Finished 9 0) (Some (TTag (2^32))).
 Proof. repeat split; vm_compute; reflexivity. Qed.
+
+(* every public encoder of encoding.c, as translated from this run's clang AST (which internal
+   encoder it calls, with which major-type offset), is the model's [encode]: e.g. for e_negint16,
+   [encode e_negint16 v size = Some (enc_uint16 v size 0x20)] by definition *)
+Theorem C10_code_encode_uint : forall v size off, v < 2^64 -> off < 2^8 ->
+  g_cbor_encode_uint (Z.of_N v) (Z.of_N size) (Z.of_N off) = zres (enc_uint v size off).
+Proof. exact bridge_encode_uint. Qed.
+Theorem C10_code_uint8 : forall v size, v < 2^8 -> gcbor_encode_uint8 (Z.of_N v) (Z.of_N size) = zres (enc_uint8 v size 0).
+Proof. exact bridge_pub_uint8. Qed.
+Theorem C10_code_uint16 : forall v size, v < 2^16 -> gcbor_encode_uint16 (Z.of_N v) (Z.of_N size) = zres (enc_uint16 v size 0).
+Proof. exact bridge_pub_uint16. Qed.
+Theorem C10_code_uint32 : forall v size, v < 2^32 -> gcbor_encode_uint32 (Z.of_N v) (Z.of_N size) = zres (enc_uint32 v size 0).
+Proof. exact bridge_pub_uint32. Qed.
+Theorem C10_code_uint64 : forall v size, v < 2^64 -> gcbor_encode_uint64 (Z.of_N v) (Z.of_N size) = zres (enc_uint64 v size 0).
+Proof. exact bridge_pub_uint64. Qed.
+Theorem C10_code_uint : forall v size, v < 2^64 -> gcbor_encode_uint (Z.of_N v) (Z.of_N size) = zres (enc_uint v size 0).
+Proof. exact bridge_pub_uint. Qed.
+Theorem C10_code_negint8 : forall v size, v < 2^8 -> gcbor_encode_negint8 (Z.of_N v) (Z.of_N size) = zres (enc_uint8 v size 32).
+Proof. exact bridge_pub_negint8. Qed.
+Theorem C10_code_negint16 : forall v size, v < 2^16 -> gcbor_encode_negint16 (Z.of_N v) (Z.of_N size) = zres (enc_uint16 v size 32).
+Proof. exact bridge_pub_negint16. Qed.
+Theorem C10_code_negint32 : forall v size, v < 2^32 -> gcbor_encode_negint32 (Z.of_N v) (Z.of_N size) = zres (enc_uint32 v size 32).
+Proof. exact bridge_pub_negint32. Qed.
+Theorem C10_code_negint64 : forall v size, v < 2^64 -> gcbor_encode_negint64 (Z.of_N v) (Z.of_N size) = zres (enc_uint64 v size 32).
+Proof. exact bridge_pub_negint64. Qed.
+Theorem C10_code_negint : forall v size, v < 2^64 -> gcbor_encode_negint (Z.of_N v) (Z.of_N size) = zres (enc_uint v size 32).
+Proof. exact bridge_pub_negint. Qed.
+Theorem C10_code_bytestring_start : forall v size, v < 2^64 -> gcbor_encode_bytestring_start (Z.of_N v) (Z.of_N size) = zres (enc_uint v size 64).
+Proof. exact bridge_pub_bytestring_start. Qed.
+Theorem C10_code_string_start : forall v size, v < 2^64 -> gcbor_encode_string_start (Z.of_N v) (Z.of_N size) = zres (enc_uint v size 96).
+Proof. exact bridge_pub_string_start. Qed.
+Theorem C10_code_array_start : forall v size, v < 2^64 -> gcbor_encode_array_start (Z.of_N v) (Z.of_N size) = zres (enc_uint v size 128).
+Proof. exact bridge_pub_array_start. Qed.
+Theorem C10_code_map_start : forall v size, v < 2^64 -> gcbor_encode_map_start (Z.of_N v) (Z.of_N size) = zres (enc_uint v size 160).
+Proof. exact bridge_pub_map_start. Qed.
+Theorem C10_code_tag : forall v size, v < 2^64 -> gcbor_encode_tag (Z.of_N v) (Z.of_N size) = zres (enc_uint v size 192).
+Proof. exact bridge_pub_tag. Qed.
+Theorem C10_code_ctrl : forall v size, v < 2^8 -> gcbor_encode_ctrl (Z.of_N v) (Z.of_N size) = zres (enc_uint8 v size 224).
+Proof. exact bridge_pub_ctrl. Qed.
+Theorem C10_code_bool : forall v size, gcbor_encode_bool (Z.of_N v) (Z.of_N size) = zres (if v =? 0 then enc_byte 0xF4 size else enc_byte 0xF5 size).
+Proof. exact bridge_pub_bool. Qed.
+Theorem C10_code_indef_bytestring_start : forall size, gcbor_encode_indef_bytestring_start (Z.of_N size) = zres (enc_byte 95 size).
+Proof. exact bridge_pub_indef_bytestring_start. Qed.
+Theorem C10_code_indef_string_start : forall size, gcbor_encode_indef_string_start (Z.of_N size) = zres (enc_byte 127 size).
+Proof. exact bridge_pub_indef_string_start. Qed.
+Theorem C10_code_indef_array_start : forall size, gcbor_encode_indef_array_start (Z.of_N size) = zres (enc_byte 159 size).
+Proof. exact bridge_pub_indef_array_start. Qed.
+Theorem C10_code_indef_map_start : forall size, gcbor_encode_indef_map_start (Z.of_N size) = zres (enc_byte 191 size).
+Proof. exact bridge_pub_indef_map_start. Qed.
+Theorem C10_code_null : forall size, gcbor_encode_null (Z.of_N size) = zres (enc_byte 246 size).
+Proof. exact bridge_pub_null. Qed.
+Theorem C10_code_undef : forall size, gcbor_encode_undef (Z.of_N size) = zres (enc_byte 247 size).
+Proof. exact bridge_pub_undef. Qed.
+Theorem C10_code_break : forall size, gcbor_encode_break (Z.of_N size) = zres (enc_byte 255 size).
+Proof. exact bridge_pub_break. Qed.
+Print Assumptions C10_code_tag.
